@@ -419,6 +419,13 @@ func (s *Sched) lock(in *Interp, m *Cell) {
 	in.g.locks[m] = true
 	if s.p.mon != nil {
 		s.p.mon.lockOrder(in, m)
+		// unlock -> lock is a happens-before edge (publication through a mutex is not a race)
+		if c, ok := s.p.mon.mutexVC[m]; ok {
+			if in.g.vc == nil {
+				in.g.vc = VC{}
+			}
+			in.g.vc = in.g.vc.join(c)
+		}
 	}
 }
 
@@ -428,6 +435,13 @@ func (s *Sched) unlock(in *Interp, m *Cell) {
 		in.panicGo("fatal error: sync: unlock of unlocked mutex")
 	}
 	st.f[0].v = mkInt(0)
+	if s.p.mon != nil {
+		if in.g.vc == nil {
+			in.g.vc = VC{}
+		}
+		s.p.mon.mutexVC[m] = in.g.vc.copy()
+		in.g.vc = in.g.vc.tick(in.g.id)
+	}
 	delete(in.g.locks, m)
 	for _, g := range s.gs {
 		delete(g.locks, m)
